@@ -284,13 +284,13 @@ def run(ctx):
               'and LSML quadruplets with manufactured exact ties, formed and through index+preprocessor; distinct by '
               '(estimator, op sequence, input form, seed); non-trivial = at least one predict event with a tie')
   ctx.model('MC_Classify', 'MC_Classify.cfg', workers=8)
-  hs = tlc_histories(ctx, 40 if ctx.quick else 300)
+  hs = tlc_histories(ctx, 40 if ctx.quick else 1200)
   rng = np.random.default_rng(ctx.seed + 4)
   rs = []
   for i, ops in enumerate(hs):
     rs.append(dict(est=gen.PAIRS[i % 3], d=int(rng.integers(2, 5)), seed=int(rng.integers(1 << 30)),
                    via_index=bool(i % 2), ops=[list(o) for o in ops], src='tlc', int_tuples=bool(i % 4 >= 2)))
-  n_rand = 12 if ctx.quick else 120
+  n_rand = 12 if ctx.quick else 600
   for i in range(n_rand):
     L = int(rng.integers(4, 12))
     ops = []
@@ -299,7 +299,7 @@ def run(ctx):
       ops.append([k, int(rng.integers(-1, 14))])
     rs.append(dict(est=gen.PAIRS[i % 3], d=int(rng.integers(2, 7)), seed=int(rng.integers(1 << 30)),
                    via_index=bool(i % 2), ops=ops, src='random', int_tuples=bool(i % 4 >= 2)))
-  for i in range(8 if ctx.quick else 80):
+  for i in range(8 if ctx.quick else 400):
     rs.append(dict(est=['SCML', 'LSML'][i % 2], d=int(rng.integers(2, 6)), seed=int(rng.integers(1 << 30)),
                    via_index=bool((i // 2) % 2), src='random'))
   pairs = core.generate(MOD, rs)
